@@ -1,4 +1,6 @@
 CONSTANT MaxNotify = 4
+CONSTANT Roles = {"r1", "r2"}
+CONSTANT ByCount = FALSE
 SPECIFICATION NoTickSpec
 PROPERTY Seen
 CHECK_DEADLOCK FALSE
